@@ -5,6 +5,13 @@ CONSTANTS
   Sims = {FALSE}
   Port0s = {FALSE}
   Extras = {"none"}
+  SNames = {"dash"}
+  OUsers = {"dash"}
+  SessOpts = {"none"}
+  FlagAttrs = {FALSE}
+  Trickies = {FALSE}
+  Blanks = {FALSE}
+  Eols = {"crlf"}
   Kinds = {"audio", "video", "application", "image"}
   MidSchemes = {"numeric", "named", "absent"}
   BundleModes = {"none", "all"}
